@@ -247,8 +247,8 @@ theorem stale_after_crash_witness :
       (crash 11 none (callProc { cfg1 with rank := rankW } 3) fsOld)).1 = [.ok ⟨1, 3⟩, .ok ⟨0, 4⟩] := by decide
 
 /-- the killed call's 11th system call is the unlink of `func_code.py` -/
-example : ((runLog (callProc { cfg1 with rank := rankW } 3) fsOld).1.take 11).getLast? =
-    some (.unlink pCode, .ok) := by decide
+example : (((runLog (callProc { cfg1 with rank := rankW } 3) fsOld).1.take 11).getLast?.map
+    fun x => ((match x.1 with | .unlink p _ => p == pCode | _ => false), x.2)) = some (true, .ok) := by decide
 
 /-- **old_code_F8_witness.** Code before fix F08: a cold call killed after the `output.pkl` rename and before the
 `metadata.json` rename (25 calls); the same call with `expires_after(...)` raises `KeyError`. -/
